@@ -469,7 +469,7 @@ def obs_ns(di, dm, il, ml):
 
 PROPS['C06'] = P_('namespaces', 'arena', plan(G_COMMON_QUICK + [['ns', 1]], G_COMMON_THOROUGH + [['ns', 20]]),
                   observable=obs_ns, internal=[('V', strip_storage), 'O'], special='ns_scale', requires=['markup'])
-PROPS['C07'] = P_('entity reference = replacement text', 'arena', plan([['model', 1500, 10], ['entnames', 1]], [['model', 60000, 10], ['entnames', 1]]),
+PROPS['C07'] = P_('entity reference = replacement text', 'arena', plan([['model', 1500, 10], ['entnames', 1], ['manyents', 1]], [['model', 60000, 10], ['entnames', 1], ['manyents', 1]]),
                   observable=obs_entities(lambda d: d.content()), special='hoist')
 PROPS['C08'] = P_('ill-formed documents are rejected', 'tok,arena', plan(G_COMMON_QUICK, G_COMMON_THOROUGH),
                   observable=lambda di, dm, il, ml: (res_kind(res_line(il)) == 'ok', res_kind(res_line(ml)) == 'ok'),
@@ -496,7 +496,7 @@ PROPS['C17'] = P_('node identity, ordering, hashing', 'arena,api,it', plan([['mo
                   observable=obs_api(['DQ']), special='ord', impl_checks=[chk_itx])
 PROPS['C18'] = P_('borrowed strings', 'arena', plan(G_COMMON_QUICK[:3] + [['lexedge', 1], ['manyattrs', 1]], G_COMMON_THOROUGH[:4] + [['lexedge', 1], ['manyattrs', 1]]),
                   observable=mk_obs(lambda d: d.storages()), impl_checks=[chk_borrowed], special='storage', requires=['structure', 'texts', 'attributes'])
-PROPS['C19'] = P_('determinism and features', 'arena', plan([['model', 800, 20], ['fixtures', 4000], ['manyattrs', 1], ['lexedge', 1], ['entities', 4]], [['model', 10000, 20], ['fixtures', 20000], ['mut', 5000, 400], ['manyattrs', 1], ['lexedge', 1], ['entities', 16]]),
+PROPS['C19'] = P_('determinism and features', 'arena', plan([['model', 800, 20], ['fixtures', 4000], ['manyattrs', 1], ['lexedge', 1], ['entities', 4], ['manyents', 1]], [['model', 10000, 20], ['fixtures', 20000], ['mut', 5000, 400], ['manyattrs', 1], ['lexedge', 1], ['entities', 16], ['manyents', 1]]),
                   observable=None, internal=[], special='features')
 PROPS['C20'] = P_('immutable, thread-shareable, no unsafe', 'arena,api', plan([['model', 200, 0]], [['model', 6000, 0]]),
                   observable=None, special='threads')
